@@ -103,9 +103,10 @@ type apiInput struct {
 }
 
 type input struct {
-	Kind string    `json:"kind"` // "asm" | "api"
+	Kind string    `json:"kind"` // "asm" | "api" | "vm"
 	Asm  *asmInput `json:"asm,omitempty"`
 	API  *apiInput `json:"api,omitempty"`
+	VM   *vmInput  `json:"vm,omitempty"`
 }
 
 type obs struct {
@@ -319,7 +320,17 @@ func runAsm(in *asmInput) (hx.Case, error) {
 	// The closing Enable+Reset rounds make the history quiescent. If the agent
 	// could not issue its whole script (a module below stopped accepting traffic)
 	// they never ran: only the open-trace clauses apply then.
-	quiescent := o.Done
+	nsend, nrecv := 0, 0
+	for _, e := range a.Agent.Log {
+		switch e.Kind {
+		case "csend":
+			nsend++
+		case "crecv":
+			nrecv++
+		}
+	}
+	// ... and every control verb must have been carried out and acknowledged
+	quiescent := o.Done && nsend == nrecv
 	if !quiescent {
 		first, _ = localWF(log, false)
 		o.FirstBad = first
@@ -774,6 +785,8 @@ func run(raw json.RawMessage) (hx.Case, error) {
 		return runAsm(in.Asm)
 	case "api":
 		return runAPI(in.API)
+	case "vm":
+		return runVM(in.VM)
 	}
 	return hx.Case{}, fmt.Errorf("bad case kind %q", in.Kind)
 }
@@ -787,6 +800,10 @@ func init() {
 			"tracing on every port; the script is 2-3 stretches of traffic over disjoint line pools separated by control histories (legal " +
 			"Pause/Drain -> Invalidate/Flush -> Enable sequences, illegal/unsupported verbs, Pause->Reset, and Reset of the top k modules " +
 			"in the middle of traffic) and ends with Enable+Reset of every module top-down, then bottom-up; run to quiescence. " +
+			"vm: a translation stack driver -> TLB0 -> [TLB1] -> MMU (page table) of real components, traced the same way, driven with " +
+			"translation requests and control verbs (Pause/Invalidate/Enable, Drain/Enable, Reset of the top k modules mid-traffic) " +
+			"and the same closing rounds. A history counts as quiescent only if the whole script was issued and every control verb " +
+			"was acknowledged. " +
 			"api: random interleavings of request / buffer / subtask lifecycles over 1-3 domains and real ports, each closed by the normal " +
 			"helper or by the reset helper, plus scripts left open. Non-trivial: asm with a Reset in the middle of traffic, >= 20 tasks and " +
 			"the script completed; api closed with resets and >= 5 tasks. Distinct = distinct input hash.",
